@@ -243,11 +243,30 @@ impl World {
             }
         }
         if eff.msvc {
-            let mut o = Vec::new();
+            let mut notes_txt = Vec::new();
             for r in &eff.reads {
-                o.extend_from_slice(format!("Note: including file: {}\n", r).as_bytes());
+                notes_txt.extend_from_slice(format!("Note: including file: {}\n", r).as_bytes());
             }
-            o.extend_from_slice(&output);
+            let mut o = Vec::new();
+            match eff.notes_at.as_str() {
+                "last" | "last-nonl" if output.is_empty() || output.ends_with(b"\n") => {
+                    o.extend_from_slice(&output);
+                    o.extend_from_slice(&notes_txt);
+                    if eff.notes_at == "last-nonl" && !notes_txt.is_empty() {
+                        o.pop(); // the compiler's last line is not terminated
+                    }
+                }
+                "mid" if output.iter().filter(|&&c| c == b'\n').count() >= 2 => {
+                    let cut = output.iter().position(|&c| c == b'\n').unwrap() + 1;
+                    o.extend_from_slice(&output[..cut]);
+                    o.extend_from_slice(&notes_txt);
+                    o.extend_from_slice(&output[cut..]);
+                }
+                _ => {
+                    o.extend_from_slice(&notes_txt);
+                    o.extend_from_slice(&output);
+                }
+            }
             output = o;
         }
         (writes, output, Value::Object(notes))
@@ -814,6 +833,20 @@ impl Engine {
                         let _ = std::fs::create_dir_all(parent);
                     }
                     let mt = w.write_file(path, text.as_bytes()).unwrap_or(0);
+                    w.ev(json!({"e":"fs","op":"write","path":path,"mt":mt}));
+                }
+                Op::Symlink { path, target } => {
+                    let mut w = world.borrow_mut();
+                    for p in [path, target] {
+                        if let Some(parent) = Path::new(p).parent() {
+                            let _ = std::fs::create_dir_all(parent);
+                        }
+                    }
+                    let content = format!("source {} (through a link) at {}\n", path, w.clock + 1);
+                    let mt = w.write_file(target, content.as_bytes()).unwrap_or(0);
+                    let _ = std::fs::remove_file(path);
+                    let abs = std::env::current_dir().map(|c| c.join(target)).unwrap_or_else(|_| PathBuf::from(target));
+                    let _ = std::os::unix::fs::symlink(&abs, path);
                     w.ev(json!({"e":"fs","op":"write","path":path,"mt":mt}));
                 }
                 Op::Rm { path } => {
